@@ -10,7 +10,7 @@
           ((addr (topic ...) x<data>) ...)                       logs, oldest first
           ((addr balance nonce x<code> ((key value) ...)) ...))  non-empty accounts, sorted
      status: 0 ok, 1 revert, 2.. EVM error class, 100.. model fault *)
-From GV Require Import Lib.Sx Lib.Bytes EVM.Word256 EVM.Memory EVM.Gas EVM.State EVM.Instr EVM.Step EVM.Interp.
+From GV Require Import Lib.Sx Lib.Bytes EVM.Word256 EVM.Memory EVM.Gas EVM.State EVM.Instr EVM.Step EVM.Interp EVM.Forks.
 Local Open Scope N_scope.
 
 Definition err_code (e : evm_err) : Z :=
